@@ -31,7 +31,7 @@ func CalleeName(c ssa.CallInstruction) string {
 	if cc.IsInvoke() {
 		return cc.Method.FullName()
 	}
-	if f := cc.StaticCallee(); f != nil {
+	if f := CalleeFn(cc); f != nil {
 		return FuncName(f)
 	}
 	if b, ok := cc.Value.(*ssa.Builtin); ok {
@@ -90,7 +90,7 @@ func Receiver(c ssa.CallInstruction) ssa.Value {
 	if cc.IsInvoke() {
 		return cc.Value
 	}
-	if f := cc.StaticCallee(); f != nil && f.Signature.Recv() != nil && len(cc.Args) > 0 {
+	if f := CalleeFn(cc); f != nil && f.Signature.Recv() != nil && len(cc.Args) > 0 {
 		return cc.Args[0]
 	}
 	return nil
@@ -101,7 +101,7 @@ func Arg(c ssa.CallInstruction, i int) ssa.Value {
 	cc := c.Common()
 	off := 0
 	if !cc.IsInvoke() {
-		if f := cc.StaticCallee(); f != nil && f.Signature.Recv() != nil {
+		if f := CalleeFn(cc); f != nil && f.Signature.Recv() != nil {
 			off = 1
 		}
 	}
@@ -298,6 +298,10 @@ func Origins(v ssa.Value) []ssa.Value {
 						}
 						return
 					}
+					if st := sameBlockStore(x, cell); st != nil {
+						walk(st.Val)
+						return
+					}
 					vals, _, escaped := StoresTo(cell)
 					if escaped || len(vals) == 0 {
 						out = append(out, v)
@@ -368,11 +372,21 @@ func IsResultOf(v ssa.Value, c ssa.CallInstruction, k int) bool {
 
 // ResultOfAny returns a predicate: value is result k of one of the calls.
 func ResultOfAny(calls []ssa.CallInstruction, k int) func(ssa.Value) bool {
-	return func(v ssa.Value) bool {
+	raw := func(v ssa.Value) bool {
 		for _, c := range calls {
 			if IsResultOf(v, c, k) {
 				return true
 			}
+		}
+		return false
+	}
+	return func(v ssa.Value) bool {
+		if raw(v) {
+			return true
+		}
+		switch v.(type) {
+		case *ssa.UnOp, *ssa.Phi, *ssa.ChangeType, *ssa.ChangeInterface, *ssa.FreeVar, *ssa.Parameter:
+			return AllOrigins(v, raw)
 		}
 		return false
 	}
@@ -656,4 +670,36 @@ func BoundArg(p *ssa.Parameter) ssa.Value {
 		return nil
 	}
 	return site.Common().Args[idx]
+}
+
+// CalleeFn returns the statically known callee of a call; instantiation
+// wrappers of generic functions are replaced by the generic function whose
+// body is analysed.
+func CalleeFn(cc *ssa.CallCommon) *ssa.Function {
+	f := cc.StaticCallee()
+	if f != nil && f.Origin() != nil && len(f.Blocks) <= 1 && f.Synthetic != "" {
+		return f.Origin()
+	}
+	return f
+}
+
+// sameBlockStore returns the store to cell that precedes load in the same
+// basic block with no call in between (nothing else can have written the
+// variable in the meantime), or nil.
+func sameBlockStore(load *ssa.UnOp, cell *ssa.Alloc) *ssa.Store {
+	b := load.Block()
+	k := indexIn(b, load)
+	for i := k - 1; i >= 0; i-- {
+		switch x := b.Instrs[i].(type) {
+		case *ssa.Store:
+			if cellOf(x.Addr) == cell {
+				return x
+			}
+		case ssa.CallInstruction:
+			return nil
+		case *ssa.RunDefers:
+			return nil
+		}
+	}
+	return nil
 }
